@@ -3,6 +3,7 @@ L2: abstract collections (comprehensions, min/max/sum/sorted over them) and loop
 inferred (Houdini) and declared invariants.
 """
 import ast
+import re
 import z3
 from .sv import *      # noqa
 from .state import State, Out
@@ -29,6 +30,13 @@ def mk_abs(C, st, ek, mem, length, base='L', distinct=False, src=None, fn=None, 
     L.facts = [f1]
     if register and ek.startswith('ref:'):
         st.facts.append((ek[4:], f1))
+    if distinct:
+        # the first two positions hold two different members (enough to tell "exactly one" from "two or more")
+        e0, e1 = elem(z3.IntVal(0)), elem(z3.IntVal(1))
+        st.assume(z3.Implies(n >= 1, z3.And(mem(e0), pos(e0) == 0)))
+        st.assume(z3.Implies(n >= 2, z3.And(mem(e1), pos(e1) == 1, e0 != e1)))
+        el = elem(n - 1)
+        st.assume(z3.Implies(n >= 1, z3.And(mem(el), pos(el) == n - 1)))
     return L
 
 
@@ -346,6 +354,10 @@ def fresh_like(C, v, base):
         return STuple([fresh_like(C, x, base) for x in v.items])
     if isinstance(v, (SFunc, SClass, SModule, SBuiltin, SLambda)) or v.kind == 'vclass':
         return v
+    if isinstance(v, (SAbs, SList, SSet, SGen)):
+        # a collection rebuilt inside the loop body: not representable as a loop-carried value; any later *read* of
+        # it before it is assigned again is outside the subset (the poison value makes that read Unsupported)
+        return SSpecial('loop-carried collection `%s`' % base)
     raise Unsupported('loop-carried variable of kind %s' % v.kind)
 
 
@@ -578,6 +590,14 @@ def havoc_state(C, st, W, tag, visited=None, consts=None):
     return s
 
 
+class VisitedFn(SV):
+    "spec-only value: the set of loop elements already iterated over (for visited(x) in @loops blocks)"
+    kind = 'visitedfn'
+
+    def __init__(self, fn):
+        self.fn = fn
+
+
 class LoopSpec:
     def __init__(self):
         self.invariants = []    # (label, callable(st, fr, i_term or None, pre_state) -> z3 Bool, required)
@@ -635,7 +655,12 @@ def eval_spec_exprs(C, node, st, fr, extra_env):
                 fn = stt.value.func.id
                 if fn == 'invariant':
                     f = C.spec_bool(stt.value.args[0], st, sfr)
-                    out['invariant'].append((ast.unparse(stt.value.args[0]), f))
+                    lab = ast.unparse(stt.value.args[0])
+                    for kw in stt.value.keywords:
+                        # invariant(..., props=['C06']): the INV obligations also count for those properties
+                        if kw.arg == 'props':
+                            lab = '[%s] %s' % (','.join(ast.literal_eval(kw.value)), lab)
+                    out['invariant'].append((lab, f))
                     continue
                 if fn == 'variant':
                     v = C.spec_eval(stt.value.args[0], st, sfr)
@@ -886,12 +911,22 @@ def cut_loop(C, kind, s, st, fr, L=None):
 
     user = []
 
+    def spec_env(it):
+        env = {'__pre__': pre, 'it': SInt(it)}
+        va = visited_at(it)
+        if va is not None:
+            env['__visited__'] = VisitedFn(va)
+        return env
+
     def user_invs(state, it):
         if unode is None:
             return []
         env = {'__pre__': pre}
         if it is not None:
             env['it'] = SInt(it)
+            va = visited_at(it)
+            if va is not None:
+                env['__visited__'] = VisitedFn(va)
         return eval_spec_exprs(C, unode, state.fork(), fr, env)['invariant']
     if unode is not None:
         for idx, (lab, _) in enumerate(user_invs(pre, z3.IntVal(0))):
@@ -945,24 +980,27 @@ def cut_loop(C, kind, s, st, fr, L=None):
     # ---- 4. the real run
     results = []
     # user invariants: initiation
+    def inv_props(lab):
+        m = re.match(r'\[([A-Z0-9,]+)\] ', lab)
+        return sorted(set(props) | set(m.group(1).split(','))) if m else props
     for lab, f in user:
         t = f(pre, z3.IntVal(0))
-        ex.col.add('INV', props, fname, '%s:init:%s' % (anchor, lab[:60]), 'loop invariant holds on entry: ' + lab,
+        ex.col.add('INV', inv_props(lab), fname, '%s:init:%s' % (anchor, lab[:60]), 'loop invariant holds on entry: ' + lab,
                    C.assumptions(pre), t)
     head = make_head(W, alive + user)
     v0 = None
     if unode is not None:
-        v0 = eval_spec_exprs(C, unode, head.fork(), fr, {'__pre__': pre, 'it': SInt(i)})['variant']
+        v0 = eval_spec_exprs(C, unode, head.fork(), fr, spec_env(i))['variant']
     outs = run_body(head)
     exits = []
     for o in outs:
         if o.kind in ('ok', 'cnt'):
             for lab, f in user:
                 t = f(o.st, i + 1)
-                ex.col.add('INV', props, fname, '%s:pres:%s' % (anchor, lab[:60]),
+                ex.col.add('INV', inv_props(lab), fname, '%s:pres:%s' % (anchor, lab[:60]),
                            'loop invariant preserved: ' + lab, C.assumptions(o.st), t)
             if v0 is not None:
-                v1 = eval_spec_exprs(C, unode, o.st.fork(), fr, {'__pre__': pre, 'it': SInt(i + 1)})['variant']
+                v1 = eval_spec_exprs(C, unode, o.st.fork(), fr, spec_env(i + 1))['variant']
                 ex.col.add('VAR', props, fname, '%s:variant' % anchor, 'variant decreases and is bounded below',
                            C.assumptions(o.st), z3.And(v0 >= 0, v1 < v0))
         elif o.kind == 'brk':
